@@ -278,7 +278,7 @@ def _is_compression(G, A, kind):
     return float((G - comp).abs().max()) / (float(comp.abs().max()) + 1e-300)
 
 
-def validate_cache(ctx, owner, owner_dense, kw, where, allowance=0.0, fresh_answer=None, lanczos_seen=False, fresh_obj=None, seen=None):
+def validate_cache(ctx, owner, owner_dense, kw, where, allowance=0.0, fresh_answer=None, lanczos_seen=False, fresh_obj=None, seen=None, snaps=None):
     """every memo entry of `owner` must be a valid answer for its key on the matrix the owner denotes.  `allowance`: error the parent's
     own factorizations had (a transplanted factor may inherit it); `fresh_answer(key parts) -> [G...]`: what a history-free copy answers
     for the same key (an entry as inexact as the method itself is not a cache defect)."""
@@ -293,6 +293,8 @@ def validate_cache(ctx, owner, owner_dense, kw, where, allowance=0.0, fresh_answ
             if ident in seen:
                 continue
             seen.add(ident)
+            if snaps is not None and G is not None:
+                snaps[ident] = G.clone()
         if err is None:
             ctx.stat("cache_entries_of_unjudged_kind:" + name)
             continue
@@ -381,6 +383,30 @@ def _rng_dependent1(spec, derivs, cfg, n, name, seed, tol):
     return False
 
 
+def check_immutable(ctx, owners, snaps, kw):
+    """memo entries of the history object and of every object it was derived from / into are never modified after they were
+    written (a later query on a derived operator that updates a shared factor in place changes what the parent answers)"""
+    for owner, dense in owners:
+        cache = getattr(owner, "_memoize_cache", None) or {}
+        errs = None
+        for key, val in list(cache.items()):
+            ident = (id(owner), key, id(val))
+            if ident not in snaps:
+                continue
+            if errs is None:
+                errs = entry_errors(owner, dense)
+            name, err, bad, G = errs.get(key, (None, None, None, None))
+            if G is None or G.shape != snaps[ident].shape:
+                continue
+            d = float((G - snaps[ident]).abs().max())
+            ctx.stat("cache_entries_checked_for_immutability")
+            if d != 0.0 and not d <= 1e-12 * (float(snaps[ident].abs().max()) + 1e-300):
+                ctx.fail("cache_entry_immutable", "stale-cache", detail=f"cached {name} of a {type(owner).__name__} changed by {d:.2e} after it was written",
+                         **dict(kw, tags=set(kw["tags"]) | {"entry:" + str(name)}))
+            else:
+                ctx.ok("cache_entry_immutable", f"{name}|{kw['cls']}", True)
+
+
 def _fresh(spec, derivs):
     fb = zoo.build(spec)
     F, Fd = fb.op, fb.dense
@@ -393,6 +419,15 @@ def _fresh(spec, derivs):
 
 
 def run_case(case, ctx):
+    lineage, snaps_box, kw_box = [], {}, {}
+    try:
+        _run_history(case, ctx, lineage, snaps_box, kw_box)
+    finally:
+        if lineage and kw_box:
+            check_immutable(ctx, lineage, snaps_box, kw_box)
+
+
+def _run_history(case, ctx, keep_alive, snaps, kw_box):
     spec = case["spec"]
     b = common.try_build(spec, ctx)
     if b is None:
@@ -408,7 +443,9 @@ def run_case(case, ctx):
     allowance = 0.0
     lanczos_seen = False
     seen = set()
-    keep_alive = [H]  # ids stay unique while the objects live
+    # snaps: canonical value of every memo entry when it was first seen (entries must never change afterwards)
+    keep_alive.append((H, Hd))  # ids stay unique while the objects live; (owner, dense) of the whole lineage
+    kw_box.update(cls=spec["cls"], path=path, tags=set(tags), info=common.spec_info(spec))
 
     def fresh_answer(name, args, kwargs):
         out = []
@@ -458,8 +495,8 @@ def run_case(case, ctx):
                     seen.add((id(H), key, id(H._memoize_cache.get(key))))
                 prev = "derive:" + st["name"]
                 continue
-            keep_alive.append(H)
-            validate_cache(ctx, H, Hd, kw, "derived", allowance=allowance, lanczos_seen=lanczos_seen, seen=seen)
+            keep_alive.append((H, Hd))
+            validate_cache(ctx, H, Hd, kw, "derived", allowance=allowance, lanczos_seen=lanczos_seen, seen=seen, snaps=snaps)
             prev = "derive:" + st["name"]
             continue
         name, cfg, seed = st["name"], st["cfg"], st["seed"]
@@ -520,4 +557,4 @@ def run_case(case, ctx):
             else:
                 ctx.ok(name, key, True, sample=dict(spec=zoo.class_path(spec, 3), history=[s["name"] for s in case["steps"][: pos + 1]], query=name, cache_hits=hits, err=err))
         prev = name
-        validate_cache(ctx, H, Hd, dict(kw, tags=set(tags)), "history_object" if not derivs else "derived", allowance=allowance, fresh_answer=fresh_answer, lanczos_seen=lanczos_seen, fresh_obj=(F, Fd), seen=seen)
+        validate_cache(ctx, H, Hd, dict(kw, tags=set(tags)), "history_object" if not derivs else "derived", allowance=allowance, fresh_answer=fresh_answer, lanczos_seen=lanczos_seen, fresh_obj=(F, Fd), seen=seen, snaps=snaps)
